@@ -474,9 +474,16 @@ impl<K: CacheKey + 'static> AsyncCache<K> for MemoryCache<K> {
     }
 
     async fn clear(&self) -> CacheResult<()> {
-        self.storage.clear();
-        self.entry_count.store(0, Ordering::Relaxed);
-        self.memory_usage.store(0, Ordering::Relaxed);
+        // Take the entries out one by one and subtract what was actually removed, like
+        // remove() does. Storing 0 into the counters would overwrite the updates of
+        // operations that run concurrently (their entry survives, or was already taken
+        // out, but their share of the counters is lost or subtracted twice).
+        self.storage.retain(|_, entry| {
+            self.entry_count.fetch_sub(1, Ordering::Relaxed);
+            self.memory_usage
+                .fetch_sub(entry.size_bytes as u64, Ordering::Relaxed);
+            false
+        });
         self.metrics.reset();
         Ok(())
     }
